@@ -6,7 +6,7 @@ Frames(sq) == {<<f[1], f[2], f[3]>> : f \in ToSet(sq)}
 Abs(j) == [written |-> j.written, finAt |-> j.finAt, pending |-> ToSet(j.pending),
            pendingFin |-> j.pendingFin, acked |-> ToSet(j.acked), ackedFin |-> j.ackedFin,
            highest |-> j.highest, reset |-> j.reset, resetPending |-> j.resetPending,
-           resetEmitted |-> j.resetEmitted, resetAcked |-> j.resetAcked,
+           resetInFlight |-> j.resetInFlight, resetAcked |-> j.resetAcked,
            finished |-> j.finished, bufferEmpty |-> j.bufferEmpty,
            outstanding |-> Frames(j.outstanding)]
 
